@@ -55,6 +55,9 @@ def judge5 (hdr preS opS resS postS : String) (viewS : Option String) : String :
         let ev := if Spec.expiryInvolved op pre then "1" else "0"
         let tv := match Spec.typeEtimeTruthful inTx op now pre post res with
           | some true => "1" | some false => "0" | none => "-"
+        -- C19: the destination of a successful store starts a new history (version 1, mtime = now)
+        let hv := match Spec.storeHistory op now (canon pre) post res with
+          | some true => "1" | some false => "0" | none => "-"
         -- C20: after the reclamation step with limit 0 (what the ticker calls) no stored row is expired
         let gv := match op with
           | .keyDeleteExpired n => if n ≤ 0 then (if post.keys.all (fun r => r.live now) then "1" else "0") else "-"
@@ -65,7 +68,7 @@ def judge5 (hdr preS opS resS postS : String) (viewS : Option String) : String :
           | some vs => match runP pViews vs with
             | .ok vd => if viewsAgree now post vd then "1" else "0"
             | .error _ => "E"
-        let tail := s!"A={av} P={invPre} I={inv} S={sv} N={nv} V={vv} T={tv} G={gv} W={wv} X={xv} E={ev} K={ks}"
+        let tail := s!"A={av} P={invPre} I={inv} S={sv} N={nv} V={vv} T={tv} H={hv} G={gv} W={wv} X={xv} E={ev} K={ks}"
         if cands.any (fun r => isOutOfDomain r.out) then s!"{seq} M=- {tail}"
         else
           match cands.find? (fun r => outEq r.out res && decide (canon r.db = post)) with
